@@ -127,7 +127,7 @@ def model_output_for(res, case_idx, kind):
     k = inv[case_idx]
     per = meta["per_shard"]
     f = os.path.join(d, "model_out_%d.v" % case_idx)
-    body = ["From VV.SERDE Require Import CorrSerde.", "Require cases_serde_%03d." % (k // per),
+    body = ["From VV.SERDE Require Import CorrSerde.", "From Top Require cases_serde_%03d." % (k // per),
             "Eval vm_compute in match nth_error cases_serde_%03d.cases %d with" % (k // per, k % per),
             " | Some (RtTable v j1 _ j2 _) => Some (encode_table v, option_map encode_table (decode_table j1), option_map encode_table (decode_table j2))",
             " | Some (RtPlan v j1 _ j2 _) => Some (encode_plan v, option_map encode_plan (decode_plan j1), option_map encode_plan (decode_plan j2))",
